@@ -1,0 +1,310 @@
+//go:build verif
+
+package jsonpath
+
+import (
+	"fmt"
+	"strconv"
+	"strings"
+)
+
+// Verification hooks. Compiled only with `-tags verif`; nothing here is reachable from the
+// library's own code, and nothing existing is edited.
+
+// VerifErrorFields exposes the unexported fields of the library's error values.
+func VerifErrorFields(err error) []string {
+	switch e := err.(type) {
+	case ErrorInvalidSyntax:
+		return []string{"syn", strconv.Itoa(e.position), e.reason, e.near}
+	case ErrorInvalidArgument:
+		msg := ""
+		if e.err != nil {
+			msg = e.err.Error()
+		}
+		return []string{"arg", e.argument, msg}
+	case ErrorFunctionNotFound:
+		return []string{"fnf", e.function}
+	case ErrorNotSupported:
+		return []string{"nsp", e.feature, e.path}
+	case ErrorMemberNotExist:
+		return []string{"mne", e.node.text}
+	case ErrorTypeUnmatched:
+		return []string{"tum", e.node.text, e.expectedType, e.foundType}
+	case ErrorFunctionFailed:
+		msg := ""
+		if e.err != nil {
+			msg = e.err.Error()
+		}
+		return []string{"ff", e.node.text, msg}
+	}
+	return nil
+}
+
+// VerifParserResidue reports which fields of the package-level parser's action state are
+// not the zero value ("" when Parse left nothing behind).
+func VerifParserResidue() string {
+	parseMutex.Lock()
+	defer parseMutex.Unlock()
+	var residue []string
+	p := &parser.jsonPathParser
+	if p.root != nil {
+		residue = append(residue, "root")
+	}
+	if len(p.paramsList) != 0 || p.paramsList != nil {
+		residue = append(residue, "paramsList")
+	}
+	if len(p.params) != 0 || p.params != nil {
+		residue = append(residue, "params")
+	}
+	if p.unescapeRegex != nil {
+		residue = append(residue, "unescapeRegex")
+	}
+	if p.filterFunctions != nil {
+		residue = append(residue, "filterFunctions")
+	}
+	if p.aggregateFunctions != nil {
+		residue = append(residue, "aggregateFunctions")
+	}
+	if p.accessorMode {
+		residue = append(residue, "accessorMode")
+	}
+	return strings.Join(residue, ",")
+}
+
+// VerifGlobals renders the current contents of the package-level verdict lists.
+func VerifGlobals(render func(interface{}) string) string {
+	list := func(l []interface{}) string {
+		parts := make([]string, len(l))
+		for i := range l {
+			if l[i] == emptyEntity {
+				parts[i] = "marker"
+			} else {
+				parts[i] = render(l[i])
+			}
+		}
+		return "[" + strings.Join(parts, ",") + "]"
+	}
+	return "E=" + list(emptyList) + ";F=" + list(fullList)
+}
+
+// VerifDumpTree parses the path the way Parse does and prints the syntax tree.
+func VerifDumpTree(path string, render func(interface{}) string, hx func(string) string, config ...Config) (dump string, err error) {
+	parseMutex.Lock()
+	defer func() {
+		if exception := recover(); exception != nil {
+			if _err, ok := exception.(error); ok {
+				err = _err
+			} else {
+				err = fmt.Errorf("panic: %v", exception)
+			}
+		}
+		parser.jsonPathParser = jsonPathParser{}
+		parseMutex.Unlock()
+	}()
+
+	parser.Buffer = path
+	if parser.parse == nil {
+		parser.Init()
+	} else {
+		parser.Reset()
+	}
+	parser.jsonPathParser.unescapeRegex = unescapeRegex
+	if len(config) > 0 {
+		parser.jsonPathParser.filterFunctions = config[0].filterFunctions
+		parser.jsonPathParser.aggregateFunctions = config[0].aggregateFunctions
+		parser.jsonPathParser.accessorMode = config[0].accessorMode
+	}
+	parser.Parse()
+	parser.Execute()
+
+	d := &verifDumper{render: render, hx: hx}
+	d.node(parser.jsonPathParser.root)
+	return d.b.String(), nil
+}
+
+type verifDumper struct {
+	b      strings.Builder
+	render func(interface{}) string
+	hx     func(string) string
+}
+
+func verifB01(v bool) string {
+	if v {
+		return "1"
+	}
+	return "0"
+}
+
+func (d *verifDumper) basic(n *syntaxBasicNode) {
+	if n == nil {
+		d.b.WriteString("|nilbasic>")
+		return
+	}
+	d.b.WriteString("|" + d.hx(n.text) + "|" + d.hx(n.connectedText) + "|" + verifB01(n.valueGroup) + verifB01(n.accessorMode) + ">")
+}
+
+func (d *verifDumper) idx(i *syntaxIndexSubscript) string {
+	s := strconv.Itoa(i.number)
+	if i.isOmitted {
+		s += "o"
+	}
+	return s
+}
+
+func (d *verifDumper) node(n syntaxNode) {
+	if n == nil {
+		return
+	}
+	switch t := n.(type) {
+	case *syntaxRootIdentifier:
+		d.b.WriteString("<root")
+		d.basic(t.syntaxBasicNode)
+	case *syntaxCurrentRootIdentifier:
+		d.b.WriteString("<cur")
+		d.basic(t.syntaxBasicNode)
+	case *syntaxChildSingleIdentifier:
+		d.b.WriteString("<single(" + d.hx(t.identifier) + ")")
+		d.basic(t.syntaxBasicNode)
+	case *syntaxChildWildcardIdentifier:
+		d.b.WriteString("<wild")
+		d.basic(t.syntaxBasicNode)
+	case *syntaxChildMultiIdentifier:
+		d.b.WriteString("<multi(" + verifB01(t.isAllWildcard))
+		for _, id := range t.identifiers {
+			d.b.WriteString(";")
+			d.node(id)
+		}
+		if t.isAllWildcard {
+			d.b.WriteString(";U")
+			d.node(&t.unionQualifier)
+		}
+		d.b.WriteString(")")
+		d.basic(t.syntaxBasicNode)
+	case *syntaxRecursiveChildIdentifier:
+		d.b.WriteString("<rec(" + verifB01(t.nextMapRequired) + verifB01(t.nextListRequired) + ")")
+		d.basic(t.syntaxBasicNode)
+	case *syntaxUnionQualifier:
+		d.b.WriteString("<union(")
+		for i, s := range t.subscripts {
+			if i > 0 {
+				d.b.WriteString(",")
+			}
+			switch u := s.(type) {
+			case *syntaxIndexSubscript:
+				d.b.WriteString("i" + strconv.Itoa(u.number))
+			case *syntaxSlicePositiveStepSubscript:
+				d.b.WriteString("p" + d.idx(u.start) + ":" + d.idx(u.end) + ":" + d.idx(u.step))
+			case *syntaxSliceNegativeStepSubscript:
+				d.b.WriteString("m" + d.idx(u.start) + ":" + d.idx(u.end) + ":" + d.idx(u.step))
+			case *syntaxWildcardSubscript:
+				d.b.WriteString("w")
+			default:
+				d.b.WriteString(fmt.Sprintf("?%T", s))
+			}
+		}
+		d.b.WriteString(")")
+		d.basic(t.syntaxBasicNode)
+	case *syntaxFilterQualifier:
+		d.b.WriteString("<filter(")
+		d.query(t.query)
+		d.b.WriteString(")")
+		d.basic(t.syntaxBasicNode)
+	case *syntaxFilterFunction:
+		d.b.WriteString("<ffun")
+		d.basic(t.syntaxBasicNode)
+	case *syntaxAggregateFunction:
+		d.b.WriteString("<agg(")
+		d.node(t.param)
+		d.b.WriteString(")")
+		d.basic(t.syntaxBasicNode)
+	default:
+		d.b.WriteString(fmt.Sprintf("<?%T>", n))
+		return
+	}
+	d.node(n.getNext())
+}
+
+func (d *verifDumper) cparam(p *syntaxBasicCompareParameter) {
+	d.query(p.param)
+	if p.isLiteral {
+		d.b.WriteString("L")
+	}
+}
+
+func (d *verifDumper) query(q syntaxQuery) {
+	switch t := q.(type) {
+	case *syntaxLogicalAnd:
+		d.b.WriteString("and(")
+		d.query(t.leftQuery)
+		d.b.WriteString(",")
+		d.query(t.rightQuery)
+		d.b.WriteString(")")
+	case *syntaxLogicalOr:
+		d.b.WriteString("or(")
+		d.query(t.leftQuery)
+		d.b.WriteString(",")
+		d.query(t.rightQuery)
+		d.b.WriteString(")")
+	case *syntaxLogicalNot:
+		d.b.WriteString("not(")
+		d.query(t.query)
+		d.b.WriteString(")")
+	case *syntaxBasicCompareQuery:
+		d.b.WriteString("cmp(")
+		switch c := t.comparator.(type) {
+		case *syntaxCompareDirectEQ:
+			switch c.syntaxTypeValidator.(type) {
+			case *syntaxBasicNumericTypeValidator:
+				d.b.WriteString("eqnum")
+			case *syntaxBasicBoolTypeValidator:
+				d.b.WriteString("eqbool")
+			case *syntaxBasicStringTypeValidator:
+				d.b.WriteString("eqstr")
+			case *syntaxBasicNilTypeValidator:
+				d.b.WriteString("eqnil")
+			default:
+				d.b.WriteString("eq?")
+			}
+		case *syntaxCompareDeepEQ:
+			d.b.WriteString("deep")
+		case *syntaxCompareLT:
+			d.b.WriteString("lt")
+		case *syntaxCompareLE:
+			d.b.WriteString("le")
+		case *syntaxCompareGT:
+			d.b.WriteString("gt")
+		case *syntaxCompareGE:
+			d.b.WriteString("ge")
+		case *syntaxCompareRegex:
+			d.b.WriteString("re(" + d.hx(c.regex.String()) + ")")
+		default:
+			d.b.WriteString(fmt.Sprintf("?%T", t.comparator))
+		}
+		d.b.WriteString(",")
+		d.cparam(t.leftParam)
+		d.b.WriteString(",")
+		d.cparam(t.rightParam)
+		d.b.WriteString(")")
+	case *syntaxQueryParamLiteral:
+		d.b.WriteString("lit(")
+		for i := range t.literal {
+			if i > 0 {
+				d.b.WriteString(",")
+			}
+			d.b.WriteString(d.render(t.literal[i]))
+		}
+		d.b.WriteString(")")
+	case *syntaxQueryParamCurrentRoot:
+		d.b.WriteString("pcur(")
+		d.node(t.param)
+		d.b.WriteString(")")
+	case *syntaxQueryParamRoot:
+		d.b.WriteString("proot(")
+		d.node(t.param)
+		d.b.WriteString(")")
+	case *syntaxBasicCompareParameter:
+		d.cparam(t)
+	default:
+		d.b.WriteString(fmt.Sprintf("?%T", q))
+	}
+}
